@@ -19,6 +19,7 @@ import (
 	"sync"
 	"sync/atomic"
 	"time"
+	"verif/appchild"
 
 	"github.com/TarsCloud/TarsGo/tars/protocol"
 	"github.com/TarsCloud/TarsGo/tars/protocol/res/basef"
@@ -395,6 +396,7 @@ func waitFor(cond func() bool, d time.Duration) bool {
 }
 
 func main() {
+	appchild.MaybeChild()
 	run = vlib.Start("C12")
 	rogger.SetLevel(rogger.OFF)
 	run.SetRule("scenarios = pool {0,1,4} x connections {1,4,32} x pipelined requests per connection {1,3,8} x gate script {all at once (after 0/30/700 ms), one by one, after the close notice was seen, some never (context expiry)}; every request is framed by the server before Shutdown(ctx) is called, so running / queued-in-pool / framed-not-started states exist by construction. A case is one scenario; distinct by (pool, connections, requests, script, shutdown duration bucket).")
@@ -436,5 +438,6 @@ func main() {
 		}(sc)
 	}
 	wg.Wait()
+	appPhase()
 	run.Finish()
 }
